@@ -1413,6 +1413,26 @@ fn main() {
             eprintln!("harness panic: {info}");
         }
     }));
+    if std::env::var("C12_BENCH").is_ok() {
+        let (cases, _) = spaces(Tier::Quick);
+        let d = build_design(&cases[300]);
+        let sc = vcore::Scratch::new("c12b");
+        let path = d.write_designspace(sc.path()).unwrap();
+        let o = Opts::default();
+        for round in 0..2 {
+            let t = std::time::Instant::now();
+            for _ in 0..50 {
+                let _ = fcx::compile(&path, &o, None);
+            }
+            eprintln!("round {round}: 50 inline compiles {:?}", t.elapsed());
+            let t = std::time::Instant::now();
+            for _ in 0..50 {
+                let _ = compile_fresh(&path, &o);
+            }
+            eprintln!("round {round}: 50 fresh-thread compiles {:?}", t.elapsed());
+        }
+        std::process::exit(0);
+    }
     if let Some(p) = &args.replay {
         replay(p);
     }
